@@ -30,11 +30,15 @@ def crWaves (thr : K) (o : Obs K) (binned : Bool) (wl : Option (List K)) : Excep
 def crSamples (E : Env K) (atol rtol : K) (o : Obs K) (binned : Bool) (x : List K) : Except Err (List K) :=
   if binned then sampleBinned atol rtol o.bins x else sampleTree E o.model x
 
-/-- the bin edges a binned range is cut on -/
-def crEdges (o : Obs K) (wl : Option (List K)) (x : List K) : Except Err (List K) :=
+/-- the (ascending) bin edges a binned range is cut on, with the counts in the same order: the observation's
+own edges by default; for explicit wavelengths their own bin edges, both arrays reversed when the edges
+descend (052fdd8) -/
+def crEdgesY (o : Obs K) (wl : Option (List K)) (x y : List K) : Except Err (List K × List K) :=
   match wl with
-  | none => pure o.bins.edges
-  | some _ => binEdges x
+  | none => pure (o.bins.edges, y)
+  | some _ => do
+      let e ← binEdges x
+      pure (if isDesc e then (e.reverse, y.reverse) else (e, y))
 
 /-- the counts that enter the sum: everything, or the part selected by the wavelength range -/
 def rangeSel (o : Obs K) (x y : List K) (binned : Bool) (wl : Option (List K)) (waverange : Option (K × K))
@@ -55,7 +59,7 @@ def rangeSel (o : Obs K) (x y : List K) (binned : Bool) (wl : Option (List K)) (
             else throw .partialOverlap
         | .full => pure (w1, w2)
       if binned then do
-        let edges ← crEdges o wl x
+        let (edges, y) ← crEdgesY o wl x y
         let i1 : Int := (searchLeft edges w1 : Int) - 1
         let i2 : Int := searchLeft edges w2
         pure (pySlice y i1 i2)
@@ -85,7 +89,7 @@ theorem countrate_of_stages (E : Env K) (thr atol rtol : K) (o : Obs K) (area : 
     (hy : convertFlux E.P E.T x yp .photlam .count area none = .ok y) :
     countrate E thr atol rtol o area binned wl waverange force =
       rateOf (rangeSel o x y binned wl waverange force) := by
-  unfold countrate rateOf rangeSel crEdges validateTotalflux
+  unfold countrate rateOf rangeSel crEdgesY validateTotalflux
   rcases waverange with _ | ⟨wa, wb⟩ <;> cases binned <;> cases wl
   case none.false.none =>
     simp only [crWaves, crSamples, if_false, Bool.false_eq_true] at hx hyp
@@ -339,6 +343,19 @@ theorem filter_zip_map (f : K → K) (p : K → Bool) : ∀ (x y : List K),
       · simp only [Bool.false_eq_true, if_false, ih y]
       · simp only [if_true, List.map_cons, ih y]
 
+theorem crEdgesY_map (f : K → K) (o : Obs K) (wl : Option (List K)) (x y : List K) :
+    crEdgesY o wl x (y.map f) = (crEdgesY o wl x y).map (fun p => (p.1, p.2.map f)) := by
+  unfold crEdgesY
+  cases wl with
+  | none => rfl
+  | some w =>
+    simp only [bind, Except.bind, pure, Except.pure]
+    cases binEdges x with
+    | error e => rfl
+    | ok e =>
+      simp only [Except.map]
+      split_ifs <;> simp only [List.map_reverse]
+
 /-- the selection commutes with any map of the counts -/
 theorem rangeSel_map (f : K → K) (o : Obs K) (x y : List K) (binned : Bool) (wl : Option (List K))
     (waverange : Option (K × K)) (force : Bool) :
@@ -353,7 +370,7 @@ theorem rangeSel_map (f : K → K) (o : Obs K) (x y : List K) (binned : Bool) (w
     | ok stat =>
       cases stat <;> cases force <;> cases binned <;>
         simp only [if_true, if_false, Bool.false_eq_true, Except.map] <;>
-        cases listMin x <;> cases listMax x <;> cases crEdges o wl x <;>
+        cases listMin x <;> cases listMax x <;> (try rw [crEdgesY_map]) <;> cases crEdgesY o wl x y <;>
         (try simp only [Except.map]) <;>
         first
         | (rw [pySlice_map])
@@ -405,9 +422,9 @@ theorem overlapArrays_swap (wa wb : K) (x : List K) : overlapArrays [wb, wa] x =
 def cutRange (o : Obs K) (x y : List K) (binned : Bool) (wl : Option (List K)) (w1 w2 : K) :
     Except Err (List K) :=
   if binned then
-    match crEdges o wl x with
+    match crEdgesY o wl x y with
     | .error e => .error e
-    | .ok edges => .ok (pySlice y ((searchLeft edges w1 : Int) - 1) (searchLeft edges w2))
+    | .ok p => .ok (pySlice p.2 ((searchLeft p.1 w1 : Int) - 1) (searchLeft p.1 w2))
   else .ok (((x.zip y).filter fun p => decide (p.1 ≥ w1 ∧ p.1 ≤ w2)).map Prod.snd)
 
 /-- the range stage as a case analysis on where the range lies with respect to the sampled wavelengths -/
@@ -425,7 +442,7 @@ theorem rangeSel_cases (o : Obs K) (x y : List K) (binned : Bool) (wl : Option (
   · simp only [h1, and_self, if_true]
     cases binned
     · simp only [Bool.false_eq_true, if_false]
-    · simp only [if_true]; cases crEdges o wl x <;> rfl
+    · simp only [if_true]; cases crEdgesY o wl x y <;> rfl
   · rw [if_neg h1, if_neg h1]
     by_cases h2 : max wa wb < xm ∨ xM < min wa wb
     · simp only [h2, if_true]
@@ -435,7 +452,7 @@ theorem rangeSel_cases (o : Obs K) (x y : List K) (binned : Bool) (wl : Option (
       · simp only [if_true]
         cases binned
         · simp only [Bool.false_eq_true, if_false]
-        · simp only [if_true]; cases crEdges o wl x <;> rfl
+        · simp only [if_true]; cases crEdgesY o wl x y <;> rfl
 
 /-! ### Python slices with natural bounds -/
 
@@ -560,6 +577,24 @@ theorem pySlice_sum_le (y : List K) (hy : ∀ v ∈ y, 0 ≤ v) (a b : Int) : (p
     linarith
   exact le_trans (h1 _ _ (fun v hv => hy v (List.mem_of_mem_drop hv))) (h2 _ _ hy)
 
+/-- the counts that come with the edges are the counts themselves, in the given or in the reversed order -/
+theorem crEdgesY_counts (o : Obs K) (wl : Option (List K)) (x y : List K) (p : List K × List K)
+    (h : crEdgesY o wl x y = .ok p) : p.2 = y ∨ p.2 = y.reverse := by
+  unfold crEdgesY at h
+  cases wl with
+  | none => simp only [pure, Except.pure] at h; injection h with h; subst h; exact Or.inl rfl
+  | some w =>
+    simp only [bind, Except.bind, pure, Except.pure] at h
+    cases he : binEdges x with
+    | error e => rw [he] at h; cases h
+    | ok e =>
+      rw [he] at h
+      simp only at h
+      injection h with h; subst h
+      split_ifs
+      · exact Or.inr rfl
+      · exact Or.inl rfl
+
 theorem cutRange_le_total (o : Obs K) (x y : List K) (hy : ∀ v ∈ y, 0 ≤ v) (binned : Bool)
     (wl : Option (List K)) (w1 w2 : K) (l : List K) (h : cutRange o x y binned wl w1 w2 = .ok l) :
     l.sum ≤ y.sum := by
@@ -569,11 +604,16 @@ theorem cutRange_le_total (o : Obs K) (x y : List K) (hy : ∀ v ∈ y, 0 ≤ v)
     injection h with h; subst h
     exact filter_sum_le_total (fun t => decide (t ≥ w1 ∧ t ≤ w2)) x y hy
   · simp only [if_true] at h
-    cases hc : crEdges o wl x with
+    cases hc : crEdgesY o wl x y with
     | error e => rw [hc] at h; cases h
-    | ok edges =>
+    | ok p =>
       rw [hc] at h; injection h with h; subst h
-      exact pySlice_sum_le y hy _ _
+      rcases crEdgesY_counts o wl x y p hc with h2 | h2
+      · rw [h2]; exact pySlice_sum_le y hy _ _
+      · rw [h2]
+        have := pySlice_sum_le y.reverse (fun v hv => hy v (List.mem_reverse.mp hv))
+          ((searchLeft p.1 w1 : Int) - 1) (searchLeft p.1 w2)
+        rwa [List.sum_reverse] at this
 
 /-! ### well-formed bins (what the constructor builds) and the binned stages on them -/
 
@@ -761,6 +801,265 @@ theorem binnedRange_mono (edges y : List K) (hy : ∀ v ∈ y, 0 ≤ v) (w1 w2 w
   have hm2 := searchLeft_mono edges w2 w2' hw2
   rw [binnedRange_eq _ _ _ _ h1, binnedRange_eq _ _ _ _ (by omega)]
   exact range_sum_mono y hy _ _ _ _ (by omega) hm2
+
+/-! ### explicit sampling wavelengths in the other order (052fdd8) -/
+
+theorem foldl_min_le_init (t : List K) : ∀ a : K, t.foldl min a ≤ a := by
+  induction t with
+  | nil => intro a; exact le_refl _
+  | cons b t ih => intro a; exact le_trans (ih (min a b)) (min_le_left _ _)
+
+theorem foldl_min_le_mem (t : List K) : ∀ (a : K), ∀ x ∈ t, t.foldl min a ≤ x := by
+  induction t with
+  | nil => intro a x hx; simp at hx
+  | cons b t ih =>
+    intro a x hx
+    rcases List.mem_cons.mp hx with rfl | hx
+    · exact le_trans (foldl_min_le_init t _) (min_le_right _ _)
+    · exact ih _ x hx
+
+theorem foldl_min_mem (t : List K) : ∀ (a : K), t.foldl min a = a ∨ t.foldl min a ∈ t := by
+  induction t with
+  | nil => intro a; exact Or.inl rfl
+  | cons b t ih =>
+    intro a
+    rcases ih (min a b) with h | h
+    · rw [List.foldl_cons, h]
+      rcases min_choice a b with h2 | h2
+      · exact Or.inl h2
+      · exact Or.inr (by rw [h2]; simp)
+    · exact Or.inr (List.mem_cons_of_mem _ h)
+
+theorem foldl_max_ge_init (t : List K) : ∀ a : K, a ≤ t.foldl max a := by
+  induction t with
+  | nil => intro a; exact le_refl _
+  | cons b t ih => intro a; exact le_trans (le_max_left _ _) (ih (max a b))
+
+theorem foldl_max_ge_mem (t : List K) : ∀ (a : K), ∀ x ∈ t, x ≤ t.foldl max a := by
+  induction t with
+  | nil => intro a x hx; simp at hx
+  | cons b t ih =>
+    intro a x hx
+    rcases List.mem_cons.mp hx with rfl | hx
+    · exact le_trans (le_max_right _ _) (foldl_max_ge_init t _)
+    · exact ih _ x hx
+
+theorem foldl_max_mem (t : List K) : ∀ (a : K), t.foldl max a = a ∨ t.foldl max a ∈ t := by
+  induction t with
+  | nil => intro a; exact Or.inl rfl
+  | cons b t ih =>
+    intro a
+    rcases ih (max a b) with h | h
+    · rw [List.foldl_cons, h]
+      rcases max_choice a b with h2 | h2
+      · exact Or.inl h2
+      · exact Or.inr (by rw [h2]; simp)
+    · exact Or.inr (List.mem_cons_of_mem _ h)
+
+/-- `min()` of an array: a member below all members -/
+theorem listMin_char (l : List K) (m : K) : listMin l = some m ↔ (m ∈ l ∧ ∀ x ∈ l, m ≤ x) := by
+  cases l with
+  | nil => simp [listMin]
+  | cons a t =>
+    have hmem : t.foldl min a ∈ a :: t := by
+      rcases foldl_min_mem t a with h | h
+      · rw [h]; simp
+      · exact List.mem_cons_of_mem _ h
+    have hle : ∀ x ∈ a :: t, t.foldl min a ≤ x := by
+      intro x hx
+      rcases List.mem_cons.mp hx with rfl | hx
+      · exact foldl_min_le_init t _
+      · exact foldl_min_le_mem t _ x hx
+    constructor
+    · intro h
+      have : t.foldl min a = m := by simpa [listMin] using h
+      rw [← this]; exact ⟨hmem, hle⟩
+    · rintro ⟨h1, h2⟩
+      show some (t.foldl min a) = some m
+      rw [le_antisymm (hle m h1) (h2 _ hmem)]
+
+theorem listMax_char (l : List K) (m : K) : listMax l = some m ↔ (m ∈ l ∧ ∀ x ∈ l, x ≤ m) := by
+  cases l with
+  | nil => simp [listMax]
+  | cons a t =>
+    have hmem : t.foldl max a ∈ a :: t := by
+      rcases foldl_max_mem t a with h | h
+      · rw [h]; simp
+      · exact List.mem_cons_of_mem _ h
+    have hle : ∀ x ∈ a :: t, x ≤ t.foldl max a := by
+      intro x hx
+      rcases List.mem_cons.mp hx with rfl | hx
+      · exact foldl_max_ge_init t _
+      · exact foldl_max_ge_mem t _ x hx
+    constructor
+    · intro h
+      have : t.foldl max a = m := by simpa [listMax] using h
+      rw [← this]; exact ⟨hmem, hle⟩
+    · rintro ⟨h1, h2⟩
+      show some (t.foldl max a) = some m
+      rw [le_antisymm (h2 _ hmem) (hle m h1)]
+
+theorem listMin_reverse (l : List K) : listMin l.reverse = listMin l := by
+  cases h : listMin l with
+  | none =>
+    cases l with
+    | nil => rfl
+    | cons a t => simp [listMin] at h
+  | some m =>
+    rw [listMin_char] at h ⊢
+    exact ⟨List.mem_reverse.mpr h.1, fun x hx => h.2 x (List.mem_reverse.mp hx)⟩
+
+theorem listMax_reverse (l : List K) : listMax l.reverse = listMax l := by
+  cases h : listMax l with
+  | none =>
+    cases l with
+    | nil => rfl
+    | cons a t => simp [listMax] at h
+  | some m =>
+    rw [listMax_char] at h ⊢
+    exact ⟨List.mem_reverse.mpr h.1, fun x hx => h.2 x (List.mem_reverse.mp hx)⟩
+
+theorem overlapArrays_reverse (a x : List K) : overlapArrays a x.reverse = overlapArrays a x := by
+  unfold overlapArrays
+  rw [listMin_reverse, listMax_reverse]
+
+theorem isDesc_of_strictDesc' (a b : K) (l : List K) (hs : StrictDesc (a :: b :: l)) :
+    isDesc (a :: b :: l) = true := by
+  unfold isDesc
+  have hl : (a :: b :: l).getLast? = some ((a :: b :: l).getLastD a) := by
+    rw [List.getLastD_eq_getLast?, List.getLast?_eq_some_getLast (by simp)]; rfl
+  rw [hl]
+  simpa using strictDesc_last_lt_head a b l hs
+
+/-- the edges-and-counts stage does not see the order of (valid) explicit wavelengths: for ascending and for
+descending wavelengths it works on the ascending edges with the counts in ascending-wavelength order -/
+theorem crEdgesY_reverse (o : Obs K) (w1 w2 w y : List K) (hv : validateWavelengths w = .ok ()) :
+    crEdgesY o (some w1) w.reverse y.reverse = crEdgesY o (some w2) w y := by
+  unfold crEdgesY
+  simp only [bind, Except.bind, pure, Except.pure]
+  rw [binEdges_reverse]
+  cases he : binEdges w with
+  | error e => rfl
+  | ok e =>
+    simp only [Except.map]
+    obtain ⟨_, hmon⟩ := (validate_ok_iff w).mp hv
+    have hl := C18.edges_length w e he
+    have h2 := (C18.edges_ok_iff w).mp ⟨e, he⟩
+    rcases e with _ | ⟨e0, _ | ⟨e1, et⟩⟩
+    · simp at hl
+    · simp only [List.length_cons, List.length_nil] at hl; omega
+    · rcases hmon with hA | hD
+      · have hes := binEdges_strictAsc w _ hA he
+        have h1 : isDesc (e0 :: e1 :: et) = false := isDesc_false_of_asc _ hes
+        have hd : StrictDesc (e0 :: e1 :: et).reverse := (strictDesc_reverse _).mpr hes
+        have h3 : isDesc (e0 :: e1 :: et).reverse = true := by
+          obtain ⟨a, b, l, hr⟩ : ∃ a b l, (e0 :: e1 :: et).reverse = a :: b :: l := by
+            rcases hr : (e0 :: e1 :: et).reverse with _ | ⟨a, _ | ⟨b, l⟩⟩
+            · simp at hr
+            · have := congrArg List.length hr; simp at this
+            · exact ⟨a, b, l, rfl⟩
+          rw [hr] at hd ⊢
+          exact isDesc_of_strictDesc' a b l hd
+        rw [h1, h3]
+        simp only [if_true, Bool.false_eq_true, if_false, List.reverse_reverse]
+      · have hes := binEdges_strictDesc w _ hD he
+        have h1 : isDesc (e0 :: e1 :: et) = true := isDesc_of_strictDesc' e0 e1 et hes
+        have h3 : isDesc (e0 :: e1 :: et).reverse = false :=
+          isDesc_false_of_asc _ ((strictAsc_reverse _).mpr hes)
+        rw [h1, h3]
+        simp only [if_true, Bool.false_eq_true, if_false]
+
+/-- the whole range stage: the same counts are selected (with a range), the same counts in the other
+order are summed (without) -/
+theorem rateOf_rangeSel_reverse (o : Obs K) (w1 w2 w y : List K) (hv : validateWavelengths w = .ok ())
+    (waverange : Option (K × K)) (force : Bool) :
+    rateOf (rangeSel o w.reverse y.reverse true (some w1) waverange force) =
+      rateOf (rangeSel o w y true (some w2) waverange force) := by
+  rcases waverange with _ | ⟨wa, wb⟩
+  · simp only [rangeSel, pure, Except.pure, rateOf, List.sum_reverse]
+  · congr 1
+    unfold rangeSel
+    simp only [overlapArrays_reverse, listMin_reverse, listMax_reverse, if_true,
+      crEdgesY_reverse o w1 w2 w y hv]
+
+theorem mulFactors_reverse : ∀ (f cf : List K), f.length = cf.length →
+    mulFactors f.reverse cf.reverse = (mulFactors f cf).reverse := by
+  intro f
+  induction f with
+  | nil => intro cf h; cases cf <;> simp [mulFactors] at h ⊢
+  | cons a f ih =>
+    intro cf h
+    cases cf with
+    | nil => simp at h
+    | cons c cf =>
+      have hl : f.length = cf.length := by simpa using h
+      have happ : ∀ (f cf : List K), f.length = cf.length → ∀ a c,
+          mulFactors (f ++ [a]) (cf ++ [c]) = mulFactors f cf ++ [a * c] := by
+        intro f
+        induction f with
+        | nil => intro cf h a c; cases cf <;> simp [mulFactors] at h ⊢
+        | cons x f ih2 =>
+          intro cf h a c
+          cases cf with
+          | nil => simp at h
+          | cons y cf => simp only [List.cons_append, mulFactors, ih2 cf (by simpa using h)]
+      simp only [List.reverse_cons, mulFactors]
+      rw [happ _ _ (by simpa using hl), ih cf hl]
+
+/-- PHOTLAM → count with an area, as an equation in the bin geometry of the wavelengths -/
+theorem convertFlux_count_eq (P : PhysConst K) (T : Transc K) (x yp : List K) (a : K)
+    (hlen : yp.length = x.length) :
+    convertFlux P T x yp .photlam .count (some a) none =
+      match calcBinEdges x with
+      | .error e => .error e
+      | .ok e =>
+        match binWidths e with
+        | .error e' => .error e'
+        | .ok bw => .ok (mulFactors yp (bw.map (· * a))) := by
+  cases he : calcBinEdges x with
+  | error e =>
+    unfold convertFlux
+    have hne : (FluxUnit.photlam : FluxUnit K) ≠ .count := by intro h; cases h
+    rw [if_neg hne]
+    simp only [countFactorsFor, FluxUnit.needsArea, Bool.or_true, if_true, countFactors, bind, Except.bind,
+      Except.map, he]
+  | ok e =>
+    cases hw : binWidths e with
+    | error e' =>
+      unfold convertFlux
+      have hne : (FluxUnit.photlam : FluxUnit K) ≠ .count := by intro h; cases h
+      rw [if_neg hne]
+      simp only [countFactorsFor, FluxUnit.needsArea, Bool.or_true, if_true, countFactors, bind, Except.bind,
+        Except.map, he, hw]
+    | ok bw => simp only [hw]; exact convertFlux_count_of P T x yp e bw a hlen he hw
+
+theorem binWidths_reverse (e : List K) : binWidths e.reverse = (binWidths e).map List.reverse := by
+  unfold binWidths
+  rw [List.length_reverse]
+  split_ifs
+  · rfl
+  · simp only [Except.map]
+    rw [absDiffs_eq_adjMap, absDiffs_eq_adjMap, adjMap_reverse _ (fun a b => abs_sub_comm b a)]
+
+/-- order-equivariance of PHOTLAM → count: reversed wavelengths and fluxes give the reversed counts, and the
+same error otherwise -/
+theorem convertFlux_count_reverse (P : PhysConst K) (T : Transc K) (x yp : List K) (a : K)
+    (hlen : yp.length = x.length) :
+    convertFlux P T x.reverse yp.reverse .photlam .count (some a) none =
+      (convertFlux P T x yp .photlam .count (some a) none).map List.reverse := by
+  rw [convertFlux_count_eq P T x yp a hlen,
+    convertFlux_count_eq P T x.reverse yp.reverse a (by simpa using hlen), C07.edges_of_reversed_centres]
+  cases he : calcBinEdges x with
+  | error e => rfl
+  | ok e =>
+    simp only [Except.map]
+    rw [binWidths_reverse]
+    cases hw : binWidths e with
+    | error e' => rfl
+    | ok bw =>
+      simp only [Except.map]
+      have hb := binWidths_length_of_edges x e bw (calcBinEdges_inv x e he).2.2 hw
+      rw [List.map_reverse, mulFactors_reverse _ _ (by rw [List.length_map, hlen, hb])]
 
 end Synphot
 
